@@ -201,6 +201,10 @@ func panicFunc(s *scope) string {
 	return s.pkgID
 }
 
+// deferredCall is a deferred call of a compiled function, made with its arguments
+// when the function returns.
+type deferredCall func(in []reflect.Value) []reflect.Value
+
 // runCfg executes a node AST by walking its CFG and running node builtin at each step.
 func runCfg(n *node, f *frame, funcNode, callNode *node) {
 	var exec bltn
@@ -220,7 +224,11 @@ func runCfg(n *node, f *frame, funcNode, callNode *node) {
 						f.recovered = r
 					}
 				}()
-				val[0].Call(val[1:])
+				if dc, ok := val[0].Interface().(deferredCall); ok {
+					dc(val[1:])
+				} else {
+					val[0].Call(val[1:])
+				}
 			}()
 		}
 		f.mutex.Lock()
@@ -1676,7 +1684,9 @@ func callBin(n *node) {
 		// Store function call in frame for deferred execution.
 		n.exec = func(f *frame) bltn {
 			val := make([]reflect.Value, l+1)
-			val[0] = value(f)
+			// The call is made as a direct call would be (spread or absent variadic arguments).
+			fn := value(f)
+			val[0] = reflect.ValueOf(deferredCall(func(in []reflect.Value) []reflect.Value { return callFn(fn, in) }))
 			for i, v := range values {
 				val[i+1] = copyValue(getBinValue(getMapType, v, f))
 			}
@@ -1688,7 +1698,9 @@ func callBin(n *node) {
 		n.exec = func(f *frame) bltn {
 			in := make([]reflect.Value, l)
 			for i, v := range values {
-				in[i] = getBinValue(getMapType, v, f)
+				// The arguments are evaluated at the go statement: keep a copy,
+				// not a reference to the frame slot.
+				in[i] = copyValue(getBinValue(getMapType, v, f))
 			}
 			go callFn(value(f), in)
 			return tnext
